@@ -9,6 +9,7 @@ import Vita.C05.Laws
 import Vita.C05.ClsLemmas
 import Vita.C05.GaussLaws
 import Vita.C05.GenLemmas
+import Vita.C05.GenCounters
 
 namespace Vita.C05
 open Num NumC
@@ -775,6 +776,54 @@ theorem gaussian_scale_is_current (ex : Rat → Rat) (dsc : Rat → Nat → Nat)
   letI := ratNumC ex dsc
   exact gaussian_end_to_end_score ex dsc fr.classes members fr.rows
 
+/-! ## 14. the counters the evaluators keep are as wide as the model assumes (round 3c, C05-m8)
+
+The model counts in `Nat`; the code in the machine types listed by `GenCounters.table` (generated from the clang AST
+on every run).  `generated_counters_wide_enough` is the obligation about the code AS IT IS NOW: narrowing any counter
+breaks it before a single dataset is sampled. -/
+
+/-- every data member, local and updated lvalue of the evaluators / classifiers is at least an `unsigned` (32 bits),
+    a 32-bit signed or a `double`, and `difficulty`, `count_`, `dataset_size_` are 64 bits, `slot_matrix_` / `age`
+    32 bits, `mean_` / `m2_` doubles (kernel evaluation of the generated table) -/
+theorem generated_counters_wide_enough : Counters.tableOk GenCounters.table = true := by decide
+
+/-- a `w`-bit counter started at 0 holds `n mod 2^w` after `n` increments: exact below `2^w`, back to `j` after
+    `2^w + j` -/
+theorem wrapping_counter_is_mod (w n : Nat) : Counters.countW w n = n % 2 ^ w := Counters.countW_eq_mod w n
+
+/-- hence every INTEGER counter of the generated table counts every dataset of fewer than `2^31` examples exactly
+    (no wrap-around), whatever the evaluator does with it -/
+theorem generated_counters_exact (c : Counters.Counter) (hc : c ∈ GenCounters.table) (n : Nat) (hn : n < 2 ^ 31) :
+    Counters.countW c.cap n = n := by
+  have h := Counters.rowOk_of_tableOk generated_counters_wide_enough hc
+  have h31 : 31 ≤ c.cap := by
+    cases hk : c.kind <;> simp [hk, Counters.minCap] at h <;> omega
+  rw [Counters.countW_eq_mod]
+  exact Nat.mod_eq_of_lt (Nat.lt_of_lt_of_le hn (Nat.pow_le_pow_right (by omega) h31))
+
+/-- `fill_matrix` run with `w`-bit wrapping counters builds the model's (unbounded) slot table on every training
+    set of fewer than `2^w` examples – any number type, any program outputs, any labels -/
+theorem narrow_fill_matrix_exact {F : Type} [NumC F] (w classes xslot : Nat) (train : List (Option F × Nat))
+    (h : train.length < 2 ^ w) : Counters.fillMatrixW w classes xslot train = Cls.fillMatrix classes xslot train :=
+  Counters.fillMatrixW_eq w classes xslot train h
+
+/-- … in particular with the width the code declares NOW for `slot_matrix_` (whatever row of the table describes it) -/
+theorem generated_fill_matrix_exact {F : Type} [NumC F] (c : Counters.Counter) (hc : c ∈ GenCounters.table)
+    (classes xslot : Nat) (train : List (Option F × Nat)) (h : train.length < 2 ^ 31) :
+    Counters.fillMatrixW c.cap classes xslot train = Cls.fillMatrix classes xslot train := by
+  have hr := Counters.rowOk_of_tableOk generated_counters_wide_enough hc
+  have h31 : 31 ≤ c.cap := by
+    cases hk : c.kind <;> simp [hk, Counters.minCap] at hr <;> omega
+  exact Counters.fillMatrixW_eq _ _ _ _ (Nat.lt_of_lt_of_le h (Nat.pow_le_pow_right (by omega) h31))
+
+/-- WITNESS of the family C05-m8 belongs to: with 16-bit counters a slot holding 65539 examples of class 0 and 10
+    of class 1 goes to class 1 (the counter reads 3), the documented rule gives it to class 0 -/
+theorem narrow_counter_flips_slot :
+    Cls.bestClass [Counters.countW 16 65539, Counters.countW 16 10] = 1 ∧ Cls.bestClass [65539, 10] = 0 := by
+  rw [Counters.countW_eq_mod, Counters.countW_eq_mod]
+  decide
+
+
 /-! ## non-vacuity -/
 
 /-- the law structure is inhabited (exact arithmetic) -/
@@ -819,5 +868,13 @@ example : @Gen.errF Rat ratFloatOps .mae (some 3) 5 = 2 ∧ @Gen.errF Rat ratFlo
   refine ⟨h.1.trans ?_, h.2.1.trans ?_⟩
   · simp [Rat.abs]; grind
   · grind
+
+/-- `generated_counters_exact` / `generated_fill_matrix_exact`: the table has rows (the slot matrix among them) -/
+example : GenCounters.table.any (fun c => c.owner == "basic_dyn_slot_lambda_f" && c.name == "slot_matrix_") = true := by
+  decide
+/-- `narrow_fill_matrix_exact`: 3 examples fit in a 2-bit counter; `tableOk` rejects a 16-bit slot matrix -/
+example : [(some (1 : Rat), 0), (none, 1), (some 2, 0)].length < 2 ^ 2 := by decide
+example : Counters.tableOk [⟨"basic_dyn_slot_lambda_f", "slot_matrix_", .field, "unsigned short", .uns, 16⟩] = false := by
+  decide
 
 end Vita.C05
